@@ -309,8 +309,20 @@ def prove_child_admission_site(src_root, ex: Explorer):
     ex.run(path, 'child-admission-site')
 
 
+def prove_tree_relies(src_root, ex: Explorer):
+    """Forwarding to 'the children and nobody else' presupposes that the children list holds exactly the admitted, still connected
+    children and never the parent: the C13 obligations about the parent election (a child never becomes the parent) and about the lookup
+    of the peer object of a closing connection (the right child is removed) are discharged here as well."""
+    from contracts import C13
+    C13.prove_check_new_parent(src_root, ex)
+    C13.prove_peer_lookup(src_root, ex)
+    for ob in ex.obligations:
+        if ob.name.startswith('C13.'):
+            ob.name = 'C14.tree.' + ob.name[4:]
+
+
 def items(src_root, tier):
-    return [('forward', k) for k in CARRIERS] + [('queue', None), ('reply', None), ('fanout', None), ('site', None)] + [('answer', k) for k in ANSWERERS]
+    return [('tree', None)] + [('forward', k) for k in CARRIERS] + [('queue', None), ('reply', None), ('fanout', None), ('site', None)] + [('answer', k) for k in ANSWERERS]
 
 
 def run_item(src_root, item, tier):
@@ -328,6 +340,8 @@ def run_item(src_root, item, tier):
             prove_fanout(src_root, ex)
         elif kind == 'site':
             prove_child_admission_site(src_root, ex)
+        elif kind == 'tree':
+            prove_tree_relies(src_root, ex)
         elif kind == 'answer':
             prove_answerers(src_root, arg, ex)
     except Unsupported as e:
